@@ -553,8 +553,9 @@ def main(ctx):
     import falcon.asgi
     model = common.Model(ctx)
     ctx.assumptions += [
-        'http.cookies (SimpleCookie/Morsel.OutputString, _quote/_unquote) is trusted: a cookie line is read '
-        'back with an independent splitter + http.cookies._unquote',
+        'cookie VALUE text is modelled and proved (coq/C15/CookieText.v: http.cookies._quote / _unquote, tables from the live '
+        'module, cross-checked exhaustively on short strings); the ATTRIBUTE text of Morsel.OutputString is still read back '
+        'with an independent splitter',
         'unicodedata.normalize(NFKD) and datetime.strftime / falcon.util.dt_to_http are oracles (their text is '
         'passed to the model as data)',
         'decode-back is proved against C10\'s model of falcon.util.uri.decode (tied to the real function by the C10 check) and '
@@ -576,7 +577,8 @@ def main(ctx):
     run_emit_oracles(ctx, model, hists, results, oracle_cases, oracle_meta)
     cookie_checks(ctx, model, falcon, 3000 if quick else 30000)
     cookie_order_checks(ctx, model, falcon, 300 if quick else 3000)
-    cookie_echo_checks(ctx, falcon, 1500 if quick else 15000)
+    cookie_text_corr(ctx, model, falcon)
+    cookie_echo_checks(ctx, model, falcon, 1500 if quick else 15000)
     uri_checks(ctx, model, falcon, 6000 if quick else 60000)
     e2e(ctx, model, falcon, 150 if quick else 1500)
     report_disagreements(ctx)
@@ -755,17 +757,20 @@ def systematic_cookie_values(rng, n_random):
     return out
 
 
-def cookie_echo_checks(ctx, falcon, n_random):
+def cookie_echo_checks(ctx, model, falcon, n_random):
     """Binding clause 'echoed back in a Cookie header, is read by the request API as the same name and
     value': set_cookie(name, value) on a real Response -> the emitted Set-Cookie line -> its name=value
     pair placed in a Cookie header (alone and between two other cookies) -> req.cookies /
-    req.get_cookie_values on WSGI and ASGI requests.  http.cookies' quoting is the stdlib's (oracle); what
-    is judged is falcon's read side against the value that was written."""
+    req.get_cookie_values on WSGI and ASGI requests.  Every observation (value written, emitted text, value
+    read) is judged by the proved oracle echo_oracle (C15_echo_oracle_sound, C15_cookie_value_echo):
+    clause 1 = the value read is not the value written (binding); 2 = the emitted text is not the modelled
+    http.cookies._quote; 3 = the value read is not what the modelled reader makes of the emitted text."""
     import falcon.asgi
     from falcon import testing
     rng = ctx.rng
     vals = systematic_cookie_values(rng, n_random)
     names = ['c', 'sid', 'tok_1', "!#$%&'*+-.^_`|~"]
+    cases, meta = [], []
     for vi, value in enumerate(vals):
         name = names[vi % len(names)] if vi % 7 == 0 else 'c'
         asgi_resp = vi % 2 == 1
@@ -774,28 +779,99 @@ def cookie_echo_checks(ctx, falcon, n_random):
             resp.set_cookie(name, value)
         except ValueError:
             ctx.count('cookie-echo-value-rejected')
+            if value.isascii():      # settable = ASCII-encodable: nothing else may be refused
+                ctx.violation('set-cookie-undocumented-exception', {'value': value, 'what': 'an ASCII value was refused'},
+                              key='cookie-echo-refused')
+            continue
+        if not value.isascii():
+            ctx.violation('cookie-echo-differs', {'value': value, 'what': 'a non-ASCII value was accepted by set_cookie'},
+                          found_input=False, key='cookie-echo-accepted')
             continue
         raw = resp._asgi_headers() if asgi_resp else resp._wsgi_headers()
         lines = [(v.decode('latin-1') if isinstance(v, bytes) else v) for k, v in raw
                  if (k.decode('latin-1') if isinstance(k, bytes) else k).lower() == 'set-cookie']
-        pname, coded, _ = parse_cookie_line(lines[0])
-        pair = '%s=%s' % (pname, coded)
+        line = lines[0]
+        coded = line[len(name) + 1:].split('; ')[0] if line.startswith(name + '=') else None
+        if coded is None:
+            ctx.violation('cookie-line-missing-or-duplicated', {'name': name, 'value': value, 'line': line}, key='cookie-echo-line')
+            continue
+        pair = '%s=%s' % (name, coded)
         for shape, hdr in (('alone', pair), ('between', 'x=1; %s; y="q"' % pair)):
             for kind in ('wsgi', 'asgi'):
                 try:
                     req = (testing.create_asgi_req if kind == 'asgi' else testing.create_req)(headers={'Cookie': hdr})
-                    got = (req.cookies.get(name), req.get_cookie_values(name))
+                    got = req.cookies.get(name)
+                    got_all = req.get_cookie_values(name)
                 except Exception as e:  # noqa: BLE001
-                    got = repr(e)
+                    got, got_all = None, repr(e)
                 ctx.count('cookie-echo-systematic')
                 ctx.note_case(('cookie-echo', value, shape, kind), '\\' in value or '"' in value)
-                if got != (value, [value]):
+                if got is None or got_all != [got]:
                     ctx.violation('cookie-echo-differs',
-                                  {'what': 'a cookie written by set_cookie and echoed in a Cookie header is read back '
-                                           'differently by the request API', 'name': name, 'value': value,
-                                   'value_codepoints': [ord(c) for c in value], 'set_cookie_line': lines[0],
-                                   'cookie_header': hdr, 'interface': kind, 'read_back': repr(got)},
-                                  key='cookie-echo-sys')
+                                  {'what': 'the echoed cookie is missing, raised, or req.cookies and get_cookie_values disagree',
+                                   'name': name, 'value': value, 'cookie_header': hdr, 'interface': kind,
+                                   'read_back': repr((got, got_all))}, key='cookie-echo-sys')
+                    continue
+                cases.append([14, value, coded, got])
+                meta.append((name, value, line, hdr, kind, coded, got))
+    outs = model.run_many(cases)
+    names_ = {1: 'the value read is not the value written', 2: 'the emitted text is not http.cookies._quote(value) as modelled',
+              3: 'the value read is not what the modelled reader (strip, guard, _unquote) makes of the emitted text'}
+    for (name, value, line, hdr, kind, coded, got), fails in zip(meta, outs):
+        if not fails:
+            continue
+        detail = {'name': name, 'value': value, 'value_codepoints': [ord(c) for c in value], 'set_cookie_line': line,
+                  'cookie_header': hdr, 'interface': kind, 'read_back': got, 'clauses_failed': fails,
+                  'clause_names': [names_[c] for c in fails]}
+        if 1 in fails:
+            ctx.violation('cookie-echo-differs',
+                          dict(detail, what='a cookie written by set_cookie and echoed in a Cookie header is read back '
+                                            'differently by the request API'), key='cookie-echo-sys')
+        else:
+            ctx.violation('correspondence-broken',
+                          dict(detail, broken='C15.cookie_text_corr (quote / parse_cookie_value vs http.cookies / '
+                                              '_parse_cookie_header)'), found_input=False, key='cookie-echo-corr-%s' % fails)
+
+
+def cookie_text_corr(ctx, model, falcon):
+    """coq/C15/CookieText.v against the stdlib functions falcon relies on (the installed CPython's
+    http.cookies._quote / _unquote) and against request_helpers._parse_cookie_header: exhaustively on all
+    strings of length <= 4 over a 14-character alphabet, and on random longer ones."""
+    import itertools
+    from falcon.util import http_cookies
+    from falcon import request_helpers
+    rng = ctx.rng
+    alpha = ['\\', '"', ';', ',', ' ', '0', '1', '3', '7', '8', 'a', 'é', '\x00', '\x7f']
+    strs = []
+    for ln in range(0, 5 if ctx.tier == 'quick' else 6):
+        strs += [''.join(t) for t in itertools.product(alpha, repeat=ln)]
+    more = alpha + ['\n', '\t', '2', '4', '9', '=', 'Ā', '€', 'Z', ':', '/', '(', '\xa0', '\x85', '\x1c', '\x0b']
+    for _ in range(6000 if ctx.tier == 'quick' else 60000):
+        strs.append(''.join(rng.choice(more) for _ in range(rng.randint(5, 14))))
+    for _ in range(3000 if ctx.tier == 'quick' else 30000):   # quoted-looking inputs for _unquote
+        strs.append('"' + ''.join(rng.choice(more) for _ in range(rng.randint(0, 10))) + '"')
+    q = model.run_many([[11, x] for x in strs])
+    u = model.run_many([[12, x] for x in strs])
+    # the value reader: the text after '=' of a single cookie-pair (no ';' inside: split(';') comes first)
+    pv = [x for x in strs if ';' not in x]
+    p = model.run_many([[13, x] for x in pv])
+    for x, a, b in zip(strs, q, u):
+        ctx.count('cookie-text-quote-unquote')
+        ctx.note_case(('cookie-text', x), '\\' in x or '"' in x)
+        rq, ru = http_cookies._quote(x), http_cookies._unquote(x)
+        if common.wstr(a) != rq or common.wstr(b) != ru:
+            ctx.violation('correspondence-broken',
+                          {'broken': 'C15.cookie_text_corr (CookieText.quote / unquote vs http.cookies._quote / _unquote)',
+                           'input': x, 'input_codepoints': [ord(c) for c in x], '_quote': rq, 'model_quote': common.wstr(a),
+                           '_unquote': ru, 'model_unquote': common.wstr(b)}, found_input=False, key='cookie-text')
+    for x, a in zip(pv, p):
+        ctx.count('cookie-text-parse-value')
+        real = request_helpers._parse_cookie_header('c=' + x).get('c', [None])[0]
+        if common.wstr(a) != real:
+            ctx.violation('correspondence-broken',
+                          {'broken': 'C15.cookie_text_corr (CookieText.parse_cookie_value vs _parse_cookie_header)',
+                           'input': x, 'input_codepoints': [ord(c) for c in x], 'real': real, 'model': common.wstr(a)},
+                          found_input=False, key='cookie-text-parse')
 
 
 import re  # noqa: E402
